@@ -3317,7 +3317,7 @@ iwrc jbn_patch_auto(struct jbl_node *root, struct jbl_node *patch, struct iwpool
 }
 
 iwrc jbn_merge_patch(struct jbl_node *root, struct jbl_node *patch, struct iwpool *pool) {
-  if (!root || !patch || root->type != JBV_OBJECT) {
+  if (!root || !patch || root->type != JBV_OBJECT || patch->type != JBV_OBJECT) {
     return IW_ERROR_INVALID_ARGS;
   }
   iwrc rc = 0;
